@@ -200,7 +200,7 @@ def run(ctx, chk):
             chk.violation("C03.R4", label, "err-arm", res[1], where)
 
     # R5 driver
-    drv = P.by_name.get(("bin", "driver::driver::CMDDriver::run"))
+    drv = P.find("bin", "driver::driver::CMDDriver::run")
     if drv is None:
         chk.undecided_("C03.R5", "CMDDriver::run", "driver function not found")
     else:
@@ -319,7 +319,7 @@ def adjust_byte_frames(ctx, chk):
     def ax_deps(bits):
         return set(b for a, b in bits_all_deps(bits) if a == "ax")
     for name in ("aaa", "aas", "daa", "das", "aam", "aad"):
-        fn = P.by_name.get(("lib", f"instructions::arithmetic::{name}"))
+        fn = P.find("lib", f"instructions::arithmetic::{name}")
         if fn is None:
             chk.undecided_("C03.R10", name, "helper not found")
             continue
